@@ -74,7 +74,7 @@ theorem writeRune_fields (cw : CW) (h : cw.pendings = []) (c : Nat) :
 /-- the general step: the text `w` is the spelling of one token with key `k` and follow predicate `fk` -/
 theorem WInv.token {cw cw' : CW} {ks fc} (h : WInv cw ks fc) (w : Bytes) (k : Key) (fk : Bytes → Bool)
     (hf : cw'.pretty = cw.pretty ∧ cw'.pendings = [] ∧ cw'.out = cw.out ++ w) (hw : w ≠ [])
-    (htok : ∀ r, fk r = true → ∀ s : LS, s.rest = w ++ r → key3 (nextToken s) = (k, r)) (hk : k.1 ≠ .eof)
+    (htok : ∀ r, fk r = true → ∀ s : LS, s.rest = w ++ r → key3 (nextToken s) = (k, r, false, [])) (hk : k.1 ≠ .eof)
     (hpre : ∀ r, fk r = true → fc (w ++ r) = true)
     (hsign : ∀ c r, (c = 43 ∨ c = 45) → fk (c :: r) = false → w.getLast? = some c) : WInv cw' (ks ++ [k]) fk := by
   refine ⟨hf.1.trans h.compact, hf.2.1, fun r hr => ?_, fun c r hc hfk => ?_⟩
